@@ -3,8 +3,8 @@
 //@ implicit: C08
 //@ source: src/debugger/variable/value/specialization/mod.rs
 //@ fn: VariableParserExtension::parse_vec_dequeue_inner (ring index arithmetic fragment), guard_len, guard_cap
-//@ assume: recorded precondition R_init: len <= cap, which holds for every initialised VecDeque; for memory holding arbitrary bytes (C08) it does not, and the index `data[offset..]` that consumes these ranges is outside this fragment
-//@ assume: recorded precondition of the C06 reading: `cap` is the deque's real capacity; the code passes guard_cap(real capacity), so for capacity > 10 000 the modulus differs from the program's (observation, not decided here)
+//@ assume: `cap` is the value of extract_capacity (the deque's real capacity field) or usize::MAX for zero-sized elements; `head`, `len` are the raw fields: no precondition on them (memory may hold arbitrary bytes)
+//@ assume: the two regions are iterated by `region.clone().map(..)` and fetched by read_region with exactly region.len() * el_type_size bytes (std Range iteration; C15.read E_len)
 //@ notcovered: element decoding, reading the buffer, type-graph driven parsing
 use vstd::prelude::*;
 verus! {
@@ -12,12 +12,12 @@ verus! {
 
 //@ extract: fn guard_len
 //@   ret: r
-//@   ensures E_guard_len: r == (if len > 10000 { 10000 } else { len })
+//@   ensures E_guard_len: r == (if len > 10000 { 10000 } else if len < 0 { 0 } else { len })
 //@ end
 
 //@ extract: fn guard_cap
 //@   ret: r
-//@   ensures E_guard_cap: r == (if cap > 10000 { 10000 } else { cap })
+//@   ensures E_guard_cap: r == (if cap > 10000 { 10000 } else if cap < 0 { 0 } else { cap })
 //@ end
 
 pub const LEN_GUARD: i64 = 10_000;
@@ -41,16 +41,56 @@ proof fn lemma_mod_add(a: int, b: int, m: int)
     ensures (a + b) % m == ((a % m) + b) % m,
 { vstd::arithmetic::div_mod::lemma_add_mod_noop(a, b, m); vstd::arithmetic::div_mod::lemma_mod_twice(a, m); vstd::arithmetic::div_mod::lemma_add_mod_noop(a % m, b, m); }
 
+#[verifier::external_body]
+fn outline_min(a: usize, b: usize) -> (r: usize)
+    ensures r == (if a <= b { a } else { b }),
+{
+    a.min(b)
+}
+
 //@ extract: impl VariableParserExtension<'a> / fn parse_vec_dequeue_inner
-//@   fragment: `let wrapped_start = if cap == 0 { 0 } else { head % cap };` .. `(wrapped_start..cap, 0..tail_len) };`
+//@   fragment: `let len = len.min(cap);` .. `(wrapped_start..cap, 0..tail_len) };`
 //@   sig: fn deque_ring(cap: usize, head: usize, len: usize) -> (r: (core::ops::Range<usize>, core::ops::Range<usize>))
 //@   tail: slice_ranges
-//@   requires R_init: len <= cap
-//@   ensures E_count: (r.0.end - r.0.start) + (r.1.end - r.1.start) == len && r.0.start <= r.0.end && r.1.start <= r.1.end
-//@   ensures E_inb: forall|i: int| 0 <= i < len ==> 0 <= #[trigger] chain_at(r, i) < cap
-//@   ensures E_phys: cap > 0 ==> forall|i: int| 0 <= i < len ==> #[trigger] chain_at(r, i) == phys(head as int, i, cap as int)
+//@   ensures E_count: (r.0.end - r.0.start) + (r.1.end - r.1.start) == (if len <= cap { len } else { cap }) && r.0.start <= r.0.end && r.1.start <= r.1.end
+//@   ensures E_inb: forall|i: int| 0 <= i < (r.0.end - r.0.start) + (r.1.end - r.1.start) ==> 0 <= #[trigger] chain_at(r, i) < cap
+//@   ensures E_phys: cap > 0 ==> forall|i: int| 0 <= i < (r.0.end - r.0.start) + (r.1.end - r.1.start) ==> #[trigger] chain_at(r, i) == phys(head as int, i, cap as int)
+//@   outline O_min: `len.min($b)` => `outline_min(len, $b)`
 //@   proof before `let slice_ranges`: assert(cap > 0 ==> forall|i: int| 0 <= i < len ==> #[trigger] phys(head as int, i, cap as int) == (if wrapped_start + i < cap { wrapped_start + i } else { wrapped_start + i - cap })) by { if cap > 0 { assert forall|i: int| 0 <= i < len implies #[trigger] phys(head as int, i, cap as int) == (if wrapped_start + i < cap { wrapped_start + i } else { wrapped_start + i - cap }) by { lemma_mod_add(head as int, i, cap as int); if wrapped_start + i < cap { lemma_mod_small(wrapped_start + i, cap as int); } else { vstd::arithmetic::div_mod::lemma_mod_sub_multiples_vanish(wrapped_start + i, cap as int); lemma_mod_small(wrapped_start + i - cap, cap as int); } } } };
 //@ end
+
+// ---- element byte range inside a fetched region (the closure body of the items iterator)
+#[verifier::external_body]
+fn outline_subslice<'b>(data: &'b Vec<u8>, a: usize, b: usize) -> (r: &'b [u8])
+    requires a <= b <= data@.len(),     // std: slice index panics otherwise -- "never reads outside the bytes it fetched"
+    ensures r@ == data@.subrange(a as int, b as int),
+{
+    &data[a..b]
+}
+
+//@ extract: impl VariableParserExtension<'a> / fn parse_vec_dequeue_inner
+//@   fragment: `let offset = (real_idx - region_start) * el_type_size;` .. `let el_raw_data = &data[offset..offset + el_type_size];`
+//@   splice: F_elem
+//@   outline O_sub: `&data[$a..$b]` => `outline_subslice(data, $a, $b)`
+//@ end
+
+//@ begin_fn: src/debugger/variable/value/specialization/mod.rs :: parse_vec_dequeue_inner [element byte range]
+fn deque_elem(data: &Vec<u8>, region_start: usize, region_end: usize, real_idx: usize, el_type_size: usize)
+    requires
+        region_start <= real_idx < region_end,                              // real_idx comes from `region.clone()`
+        data@.len() == (region_end - region_start) * el_type_size,          // read_region fetched exactly region.len() * el_type_size bytes (C15.read E_len)
+{
+    proof {
+        vstd::std_specs::vec::axiom_spec_len(data);
+        assert((real_idx - region_start) * el_type_size + el_type_size <= (region_end - region_start) * el_type_size) by (nonlinear_arith)
+            requires region_start <= real_idx < region_end, el_type_size >= 0;
+        assert((real_idx - region_start) * el_type_size >= 0) by (nonlinear_arith)
+            requires region_start <= real_idx, el_type_size >= 0;
+    }
+    /*@@SPLICE:F_elem*/
+    assert(el_raw_data@.len() == el_type_size); /*@@E_elem_len*/
+}
+//@ end_fn
 
 } // verus!
 fn main() {}
